@@ -23,8 +23,8 @@ pub uninterp spec fn translated(p: &PathV, out: &PathV, s: &SrcText) -> Result<B
 #[verifier::external_body] pub fn compile_from_str_default_side_effects(p: &PathV, out: &PathV, s: &SrcText) -> (r: Result<Buffer, VErr>) ensures r == translated(p, out, s) { unimplemented!() }
 #[verifier::external_body] pub fn spinner_noop() -> (r: Result<(), VErr>) { unimplemented!() }           // logger().wrap_in_spinner(.., || Ok(())): shows a spinner around nothing
 // ways of turning a failed translation into a buffer anyway (unwrap_or_default / unwrap_or_else / ok().unwrap_or..): some buffer
-pub trait Recover { fn unwrap_or_default(self) -> Buffer; }
-impl Recover for Result<Buffer, VErr> { #[verifier::external_body] fn unwrap_or_default(self) -> (r: Buffer) ensures self is Ok ==> r == self->Ok_0 { unimplemented!() } }
+pub trait Recover { fn verif_recover(self) -> Buffer; }
+impl Recover for Result<Buffer, VErr> { #[verifier::external_body] fn verif_recover(self) -> (r: Buffer) ensures self is Ok ==> r == self->Ok_0 { unimplemented!() } }
 // effects
 pub struct World { pub written: Ghost<Seq<(PathV, Buffer, bool)>> }
 #[verifier::external_body] pub fn perform_file_io_out(w: &mut World, out: &PathV, b: &Buffer, bin: bool) -> (r: Result<(), VErr>)
@@ -43,6 +43,7 @@ def build(repo):
         Rule("R3", "let start_time = Instant :: now ( ) ;", "", why="timing for the progress output"),
         Rule("R1", "let input_path = input_path . as_ref ( ) ;", "", why="AsRef<Path>: the path itself"),
         Rule("R3", ". to_err_vec ( )", "", why="error -> vector of errors: still an error"),
+        Rule("R9", ". unwrap_or_default ( )", ". verif_recover ( )", why="Result::unwrap_or_default: the value, or SOME default when it failed"),
         Rule("R6", "compile_from_str_default_side_effects ( input_path , & output_path , & file_contents , FileManager :: no_mock ( ) , )", "compile_from_str_default_side_effects ( input_path , & output_path , & file_contents )", why="the translation of the source: abstract callee (file manager argument dropped)"),
         Rule("R3", "logger ( ) . wrap_in_spinner ( $$a ) ?", "spinner_noop ( ) ?", why="progress spinner around a no-op closure"),
         Rule("R3", "print ! ( $$a ) ;", "", why="progress output dropped"),
